@@ -17,6 +17,8 @@
       semantics of [visited.swap(succ, true)]; the schedule is an explicit argument.
     - [bfs_order], [bfs_from_roots]: the iterators [BfsOrder] and [BfsOrderFromRoots]. *)
 From WG Require Import Base.Prelude.
+
+Module BfsM.
 Local Open Scope N_scope.
 
 Definition graph : Type := list (list N).
@@ -220,3 +222,7 @@ Inductive reach (g : graph) (ok : N -> bool) (roots : list N) : nat -> N -> Prop
 (** [k] is the length of a shortest such walk *)
 Definition dist_is (g : graph) (ok : N -> bool) (roots : list N) (v : N) (k : nat) : Prop :=
   reach g ok roots k v /\ forall j, (j < k)%nat -> ~ reach g ok roots j v.
+
+
+End BfsM.
+Export BfsM.
